@@ -284,6 +284,9 @@ def run(ctx):
     for _nm in ("orc_x86_emit_split_2_regions", "orc_x86_emit_split_3_regions"):
         _esym.check_tiling(db.func(_nm, "orcprogram-x86"), rep, "D9-REGION-TILING", where)
     d10_partial_load_cleared(db, rep)
+    # D11: the generated code never restores a state (MXCSR) it did not save in the same call: no emitted branch crosses one half
+    # of a save/restore pair (shared with C10 D5)
+    _il.import_module("rules.c10").emitted_branch_pairs(db, rep, "D11-NO-STALE-RESTORE")
 
 
 def _codeptr_skips(f):
